@@ -187,6 +187,13 @@ def r11_2(ctx):
                         r = trace(b, via["args"][0])
                         if r.origin and r.origin[0] == "call" and r.origin[2] is it and all(s_[0] == "use" for s_ in r.steps):
                             ok = True
+                    # `X.into_error().unwrap_or(custom(..))`: built eagerly, but used only when X holds no error
+                    for ub, ut in b.calls():
+                        if (fn_of(ut) or {}).get("def") == "std::option::Option::<T>::unwrap_or" and len(ut["args"]) == 2:
+                            r0 = trace(b, ut["args"][0])
+                            r1 = trace(b, ut["args"][1])
+                            if r0.origin and r0.origin[0] == "call" and r0.origin[2] is it and r1.origin and r1.origin[0] == "call" and r1.origin[2] is t and all(s_[0] == "use" for s_ in r0.steps + r1.steps):
+                                ok = True
                     sw = b.blocks[it["target"]]["term"]
                     if sw["k"] == "switch":
                         z = [y for v, y in sw["targets"] if v == 0]
